@@ -26,8 +26,8 @@ ASSUMPTIONS = [
     "a run() whose function has been invoked counts as a holder until the function's result exists; cancelling a "
     "running run() is followed by observing whether the function's Deferred now has a result (either is accepted)",
 ]
-MIN = {"quick": {"states": 400000, "nontrivial": 480000, "outcomes": 14},
-       "thorough": {"states": 400000, "nontrivial": 480000, "outcomes": 14}}
+MIN = {"quick": {"states": 600000, "nontrivial": 650000, "outcomes": 14},
+       "thorough": {"states": 600000, "nontrivial": 650000, "outcomes": 14}}
 
 LEVEL_TEXT = ("every history of the alphabet up to the depth bound is executed on the real primitive and compared "
               "step by step with a FIFO list reference; a pass means no such history breaks capacity, FIFO grant "
